@@ -15,6 +15,7 @@ structure DRel (s : St) (ss : SpecSt) : Prop where
   out : s.abs.out = ss.out
   next : s.abs.decls.length = ss.next
   reg : ∀ n ∈ s.abs.decls, n ∈ s.root.innerNames
+  rd : RdInv s
 
 /-- a statement-level function that reports no error preserves the relation -/
 def StD (f : St → St) (F : SpecSt → SpecSt) : Prop :=
@@ -149,6 +150,36 @@ theorem dvals_declare {decls : List Name} {x : List (Name × Value)} {rest : Lis
       unfold rlookup
       simp [hk]; exact hfr k
 
+/-- pushing an instruction that writes no register and whose reads are held -/
+theorem rd_push_nowrite {s : St} (h : RdInv s) (i : Instr) (hw : i.writes = none)
+    (hrd : ∀ q ∈ i.reads, q ≤ s.curReg ∧ s.abs.bound q = true) : RdInv (s.push i) :=
+  rd_push h i hrd (fun w hw' => by rw [hw] at hw'; cases hw') (fun w hw' => by rw [hw] at hw'; cases hw')
+
+theorem curReg_insertRegister (n m : Name) (v : Value) (s : St) : ((s.insertValue n v).registerInner m).curReg = s.curReg := by
+  unfold St.curReg St.cur St.registerInner St.mapFrames St.insertValue St.mapCur
+  cases s.inner <;> rfl
+
+theorem rd_insertRegister {s : St} (h : RdInv s) (n m : Name) (v : Value) : RdInv ((s.insertValue n v).registerInner m) := by
+  refine rd_same h ?_ ?_ ?_
+  · intro b hb
+    have hroot : ((s.insertValue n v).registerInner m).root.reg = s.root.reg := by
+      unfold St.registerInner St.mapFrames St.insertValue St.mapCur
+      cases s.inner <;> rfl
+    rw [hroot]
+    unfold St.registerInner St.mapFrames St.insertValue St.mapCur at hb
+    cases hi : s.inner with
+    | nil => rw [hi] at hb; simp at hb
+    | cons b0 rest =>
+      rw [hi] at hb
+      simp at hb
+      rcases hb with rfl | ⟨b', hb', rfl⟩
+      · exact h.sync b0 (by simp [hi])
+      · exact h.sync b' (by simp [hi, hb'])
+  · unfold St.registerInner St.mapFrames St.insertValue St.mapCur
+    cases s.inner <;> rfl
+  · unfold St.registerInner St.mapFrames St.insertValue St.mapCur
+    cases s.inner <;> rfl
+
 /-! ### `let` -/
 
 theorem den_let {g : Globals} {rg : RGlobals} (hg : GlobRel g rg) (hn : GNames g) (b : LetB) :
@@ -204,7 +235,13 @@ theorem den_let {g : Globals} {rg : RGlobals} (hg : GlobRel g rg) (hn : GNames g
         rw [hty]
         simp only [Option.getD_some]
         have hlen : s1.abs.decls.length = ss.next := by rw [t1.decls]; exact hr.next
-        refine ⟨⟨?_, ?_⟩, ?_, ?_, ?_⟩
+        refine ⟨⟨?_, ?_⟩, ?_, ?_, ?_, ?_⟩
+        rotate_left 5
+        · -- reads
+          apply rd_push_nowrite (rd_insertRegister (t1.rd hr.rd) _ _ _) _ rfl
+          intro q hq
+          rw [curReg_insertRegister, abs_registerInner, abs_insertValue]
+          exact hh.regs q hq
         · -- types
           unfold ScopeRel
           rw [vals_push, vals_registerInner]
@@ -255,22 +292,16 @@ theorem den_let {g : Globals} {rg : RGlobals} (hg : GlobRel g rg) (hn : GNames g
 theorem drel_trans {s s1 : St} {ss : SpecSt} {evs : List DStmt} (hr : DRel s ss) (t1 : Trans s s1 evs) :
     DRel s1 (ss.emits evs) :=
   ⟨⟨(hr.scope.of_trans t1).sc, (hr.scope.of_trans t1).dv⟩, by rw [t1.out, hr.out]; rfl, by rw [t1.decls]; exact hr.next,
-   fun n hn => by rw [t1.rootNames]; exact hr.reg n (by rw [← t1.decls]; exact hn)⟩
+   fun n hn => by rw [t1.rootNames]; exact hr.reg n (by rw [← t1.decls]; exact hn), t1.rd hr.rd⟩
 
-/-- pushing an instruction that only appends statement `d` to the abstract reading -/
+/-- pushing a statement-level instruction that only appends statement `d` to the abstract reading -/
 theorem drel_push_emit {s : St} {ss : SpecSt} (hr : DRel s ss) (i : Instr) (d : DStmt)
-    (ho : (abstractStep s.abs i).out = s.abs.out ++ [d]) (hd : (abstractStep s.abs i).decls = s.abs.decls) :
+    (ho : (abstractStep s.abs i).out = s.abs.out ++ [d]) (hd : (abstractStep s.abs i).decls = s.abs.decls)
+    (hw : i.writes = none) (hrd : ∀ q ∈ i.reads, q ≤ s.curReg ∧ s.abs.bound q = true) :
     DRel (s.push i) (ss.emit d) :=
   ⟨⟨by unfold ScopeRel; rw [vals_push]; exact hr.scope.sc, by rw [abs_push, hd, vals_push]; exact hr.scope.dv⟩,
    by rw [abs_push, ho, hr.out]; rfl, by rw [abs_push, hd]; exact hr.next,
-   fun n hn => hr.reg n (by rw [abs_push, hd] at hn; exact hn)⟩
-
-/-- pushing an instruction the abstract reading ignores (labels, jumps) -/
-theorem drel_push_skip {s : St} {ss : SpecSt} (hr : DRel s ss) (i : Instr) (hi : abstractStep s.abs i = s.abs) :
-    DRel (s.push i) ss :=
-  ⟨⟨by unfold ScopeRel; rw [vals_push]; exact hr.scope.sc, by rw [abs_push, hi, vals_push]; exact hr.scope.dv⟩,
-   by rw [abs_push, hi]; exact hr.out, by rw [abs_push, hi]; exact hr.next,
-   fun n hn => hr.reg n (by rw [abs_push, hi] at hn; exact hn)⟩
+   fun n hn => hr.reg n (by rw [abs_push, hd] at hn; exact hn), rd_push_nowrite hr.rd i hw hrd⟩
 
 theorem len_of_ext {a b : List Err} (h : ∃ Δ, b = a ++ Δ) : a.length ≤ b.length := by
   obtain ⟨Δ, h⟩ := h; rw [h]; simp
@@ -313,7 +344,7 @@ theorem den_bind {g : Globals} {rg : RGlobals} (hg : GlobRel g rg) (hn : GNames 
           by_cases hty : value.ty ≠ r.ty
           · rw [if_pos hty] at hl; rw [addErr_len] at hl; omega
           · rw [if_neg hty] at he hl ⊢
-            obtain ⟨r', s2, hm2, _, _, t1, r1, _⟩ := hrun he
+            obtain ⟨r', s2, hm2, _, _, t1, r1, hh⟩ := hrun he
             rw [hm] at hm2
             injection hm2 with hm2 hm3
             injection hm2 with hm2
@@ -331,7 +362,7 @@ theorem den_bind {g : Globals} {rg : RGlobals} (hg : GlobRel g rg) (hn : GNames 
             | some d =>
               rw [hd] at hlk
               simp only [Option.map_some, Option.some.injEq] at hlk
-              refine drel_push_emit h1 _ _ ?_ ?_
+              refine drel_push_emit h1 _ _ ?_ ?_ rfl (fun q hq => hh.regs q hq)
               · simp only [abstractStep, AbsSt.emit_out, AbsSt.declIdx]
                 rw [declIdx_of_pjD hlk, r1]
                 rfl
@@ -381,7 +412,8 @@ theorem condExprM_ext (g : Globals) (lc : LogicCond) (s : St) : ∃ Δ, (condExp
 
 theorem den_cond {g : Globals} {rg : RGlobals} (hg : GlobRel g rg) (hn : GNames g) (ss : SpecSt) :
     ∀ (lc : LogicCond) (s : St) (q : Nat) (s' : St), condExprM g lc s = (q, s') → DScope s ss → s'.errors = s.errors →
-    Trans s s' (specLogic false ss lc).1 ∧ s'.abs.reg q = (specLogic false ss lc).2 ∧ q ≤ s'.curReg
+    Trans s s' (specLogic false ss lc).1 ∧ s'.abs.reg q = (specLogic false ss lc).2 ∧ q ≤ s'.curReg ∧
+      s'.abs.bound q = true
   | .mk c right, s, q, s', hq, hs, he => by
     unfold condExprM at hq
     have x1 := exprM_ext g c.left s
@@ -413,16 +445,26 @@ theorem den_cond {g : Globals} {rg : RGlobals} (hg : GlobRel g rg) (hn : GNames 
               · rw [if_neg hpr] at hq
                 -- the comparison instruction
                 have hc := curReg_incReg s2
-                have t3 : Trans s2 (s2.incReg.push (.condExpr lv rv c.cond s2.incReg.curReg)) [] := by
-                  refine trans_incPush _ _ [] ?_ ?_ ?_
+                have t3 : Held s2 lv → Held s2 rv → Trans s2 (s2.incReg.push (.condExpr lv rv c.cond s2.incReg.curReg)) [] := by
+                  intro hhl hhr
+                  refine trans_incPush _ _ [] ?_ ?_ ?_ ?_ ?_
                   · simp [abstractStep, AbsSt.bind_out]
                   · simp [abstractStep, AbsSt.bind_decls]
                   · intro q hq
                     simp only [abstractStep]
                     rw [AbsSt.bind_reg, if_neg (by omega)]
+                  · intro q hq
+                    simp only [Instr.reads, List.mem_append] at hq
+                    rcases hq with hq | hq
+                    · exact hhl.regs q hq
+                    · exact hhr.regs q hq
+                  · intro w hw; simp [Instr.writes] at hw; exact hw.symm
+                have hb3 : (s2.incReg.push (.condExpr lv rv c.cond s2.incReg.curReg)).abs.bound s2.incReg.curReg = true := by
+                  rw [abs_push, abs_incReg]
+                  simp [abstractStep, AbsSt.bind_bound]
                 have key : s2.errors.length ≤ s.errors.length →
                     ∃ dl dr, dl = specExpr false ss c.left ∧ dr = specExpr false ss c.right ∧
-                      Trans s s2 (dl.1 ++ dr.1) ∧ s2.abs.res lv = dl.2 ∧ s2.abs.res rv = dr.2 := by
+                      Trans s s2 (dl.1 ++ dr.1) ∧ s2.abs.res lv = dl.2 ∧ s2.abs.res rv = dr.2 ∧ Held s2 lv ∧ Held s2 rv := by
                   intro hle
                   have e1 : s1.errors = s.errors := eq_of_ext_len x1 (by omega)
                   have e2 : s2.errors = s1.errors := eq_of_ext_len x2 (by omega)
@@ -431,21 +473,21 @@ theorem den_cond {g : Globals} {rg : RGlobals} (hg : GlobRel g rg) (hn : GNames 
                   injection hm1 with hm1 hm1'
                   injection hm1 with hm1
                   subst hm1; subst hm1'
-                  obtain ⟨r2, s2', hm2, _, _, t2, d2, _⟩ := expr_run hg hn c.right (rg := rg) (hs.of_trans t1) (by rw [hrr]; exact e2)
+                  obtain ⟨r2, s2', hm2, _, _, t2, d2, h2⟩ := expr_run hg hn c.right (rg := rg) (hs.of_trans t1) (by rw [hrr]; exact e2)
                   rw [hrr] at hm2
                   injection hm2 with hm2 hm2'
                   injection hm2 with hm2
                   subst hm2; subst hm2'
-                  exact ⟨_, _, rfl, rfl, t1.trans t2, by rw [t2.stable _ h1, d1], d2⟩
+                  exact ⟨_, _, rfl, rfl, t1.trans t2, by rw [t2.stable _ h1, d1], d2, h1.mono t2.mono t2.bnd, h2⟩
                 cases right with
                 | none =>
                   dsimp only at hq
                   injection hq with h1 h2
                   subst h1; subst h2
                   rw [push_errors, incReg_errors] at hlen
-                  obtain ⟨dl, dr, rfl, rfl, t12, rl, rr⟩ := key (by omega)
+                  obtain ⟨dl, dr, rfl, rfl, t12, rl, rr, hhl, hhr⟩ := key (by omega)
                   unfold specLogic
-                  refine ⟨by simpa using t12.trans t3, ?_, by rw [curReg_push]; exact Nat.le_refl _⟩
+                  refine ⟨by simpa using t12.trans (t3 hhl hhr), ?_, by rw [curReg_push]; exact Nat.le_refl _, by rw [curReg_push]; exact hb3⟩
                   rw [abs_push, abs_incReg, curReg_push]
                   simp only [abstractStep]
                   rw [AbsSt.bind_reg, if_pos rfl, rl, rr]
@@ -463,34 +505,45 @@ theorem den_cond {g : Globals} {rg : RGlobals} (hg : GlobRel g rg) (hn : GNames 
                     have l3 : (s2.incReg.push (.condExpr lv rv c.cond s2.incReg.curReg)).errors.length ≤ s5.errors.length :=
                       len_of_ext x3
                     rw [push_errors, incReg_errors] at l3
-                    obtain ⟨dl, dr, rfl, rfl, t12, rl, rr⟩ := key (by omega)
+                    obtain ⟨dl, dr, rfl, rfl, t12, rl, rr, hhl, hhr⟩ := key (by omega)
                     have e3 : s5.errors = (s2.incReg.push (.condExpr lv rv c.cond s2.incReg.curReg)).errors :=
                       eq_of_ext_len x3 (by rw [push_errors, incReg_errors]; omega)
                     have hs4 : DScope (s2.incReg.push (.condExpr lv rv c.cond s2.incReg.curReg)) ss :=
-                      (hs.of_trans t12).of_trans t3
-                    obtain ⟨t4, r4, h4⟩ := den_cond hg hn ss rc _ rightReg s5 hrc hs4 e3
+                      (hs.of_trans t12).of_trans (t3 hhl hhr)
+                    obtain ⟨t4, r4, h4, b4⟩ := den_cond hg hn ss rc _ rightReg s5 hrc hs4 e3
+                    have hheld3 : Held (s2.incReg.push (.condExpr lv rv c.cond s2.incReg.curReg)) ⟨.prim .bool, .reg s2.incReg.curReg⟩ :=
+                      ⟨by rw [curReg_push]; exact Nat.le_refl _, hb3⟩
                     have hleft : s5.abs.reg s2.incReg.curReg =
                         .cmp c.cond (specExpr false ss c.left).2 (specExpr false ss c.right).2 := by
-                      have := t4.stable ⟨.prim .bool, .reg s2.incReg.curReg⟩ (by
-                        show s2.incReg.curReg ≤ (s2.incReg.push _).curReg
-                        rw [curReg_push]; exact Nat.le_refl _)
+                      have := t4.stable ⟨.prim .bool, .reg s2.incReg.curReg⟩ hheld3
                       simp only [AbsSt.res_reg] at this
                       rw [this, abs_push, abs_incReg]
                       simp only [abstractStep]
                       rw [AbsSt.bind_reg, if_pos rfl, rl, rr]
                     have hc5 := curReg_incReg s5
                     have t5 : Trans s5 (s5.incReg.push (.logicCond lg (s2.incReg.push (.condExpr lv rv c.cond s2.incReg.curReg)).curReg rightReg s5.incReg.curReg)) [] := by
-                      refine trans_incPush _ _ [] ?_ ?_ ?_
+                      refine trans_incPush _ _ [] ?_ ?_ ?_ ?_ ?_
                       · simp [abstractStep, AbsSt.bind_out]
                       · simp [abstractStep, AbsSt.bind_decls]
                       · intro q hq
                         simp only [abstractStep]
                         rw [AbsSt.bind_reg, if_neg (by omega)]
+                      · intro q hq
+                        simp only [Instr.reads, List.mem_cons, List.not_mem_nil, or_false] at hq
+                        rcases hq with rfl | rfl
+                        · rw [curReg_push]
+                          exact ⟨by have := t4.mono; rw [curReg_push] at this; exact this, t4.bnd _ hb3⟩
+                        · exact ⟨h4, b4⟩
+                      · intro w hw; simp [Instr.writes] at hw; exact hw.symm
                     unfold specLogic
-                    refine ⟨by simpa [List.append_assoc] using ((t12.trans t3).trans t4).trans t5, ?_, by rw [curReg_push]; exact Nat.le_refl _⟩
-                    rw [abs_push, abs_incReg]
-                    simp only [abstractStep, curReg_push]
-                    rw [AbsSt.bind_reg, if_pos rfl, hleft, r4]
+                    refine ⟨by simpa [List.append_assoc] using ((t12.trans (t3 hhl hhr)).trans t4).trans t5, ?_,
+                      by rw [curReg_push]; exact Nat.le_refl _, ?_⟩
+                    · rw [abs_push, abs_incReg]
+                      simp only [abstractStep, curReg_push]
+                      rw [AbsSt.bind_reg, if_pos rfl, hleft, r4]
+                    · rw [abs_push, abs_incReg]
+                      simp only [abstractStep, curReg_push]
+                      rw [AbsSt.bind_bound]; simp
 
 
 theorem den_ifCondCalc {g : Globals} {rg : RGlobals} (hg : GlobRel g rg) (hn : GNames g) (c : IfCond)
@@ -514,12 +567,12 @@ theorem den_ifCondCalc {g : Globals} {rg : RGlobals} (hg : GlobRel g rg) (hn : G
       | some r =>
         dsimp only at he ⊢
         rw [push_errors] at he
-        obtain ⟨r', s2, hm2, _, _, t1, r1, _⟩ := hrun he
+        obtain ⟨r', s2, hm2, _, _, t1, r1, hh⟩ := hrun he
         rw [hm] at hm2
         injection hm2 with hm2 hm3
         injection hm2 with hm2
         subst hm2; subst hm3
-        refine drel_push_emit (drel_trans hr t1) _ _ ?_ ?_
+        refine drel_push_emit (drel_trans hr t1) _ _ ?_ ?_ rfl (fun q hq => hh.regs q hq)
         · simp only [abstractStep, AbsSt.emit_out]; rw [r1]
         · simp [abstractStep, AbsSt.emit_decls]
   | logic lc =>
@@ -529,8 +582,10 @@ theorem den_ifCondCalc {g : Globals} {rg : RGlobals} (hg : GlobRel g rg) (hn : G
       rw [hq] at he
       dsimp only at he ⊢
       rw [push_errors] at he
-      obtain ⟨t1, r1, _⟩ := den_cond hg hn ss lc s q s1 hq hr.scope he
-      refine drel_push_emit (drel_trans hr t1) _ _ ?_ ?_
+      obtain ⟨t1, r1, hq1, hb1⟩ := den_cond hg hn ss lc s q s1 hq hr.scope he
+      refine drel_push_emit (drel_trans hr t1) _ _ ?_ ?_ rfl (fun q' hq' => by
+        simp only [Instr.reads, List.mem_cons, List.not_mem_nil, or_false] at hq'
+        subst hq'; exact ⟨hq1, hb1⟩)
       · simp only [abstractStep, AbsSt.emit_out]; rw [r1]
       · simp [abstractStep, AbsSt.emit_decls]
 
@@ -544,7 +599,12 @@ theorem innerUsed_setReturn (s : St) (n : Name) : s.setReturn.innerUsed n = s.in
 theorem drel_setReturn {s : St} {ss : SpecSt} (hr : DRel s ss) : DRel s.setReturn ss :=
   ⟨⟨by unfold ScopeRel; rw [vals_setReturn]; exact hr.scope.sc, by rw [abs_setReturn, vals_setReturn]; exact hr.scope.dv⟩,
    by rw [abs_setReturn]; exact hr.out, by rw [abs_setReturn]; exact hr.next,
-   fun n hn => hr.reg n (by rw [abs_setReturn] at hn; exact hn)⟩
+   fun n hn => hr.reg n (by rw [abs_setReturn] at hn; exact hn),
+   rd_same hr.rd (by
+     intro b hb
+     simp [St.setReturn, St.mapFrames] at hb ⊢
+     obtain ⟨b', hb', rfl⟩ := hb
+     exact hr.rd.sync b' hb') rfl rfl⟩
 
 theorem den_nestedReturn {g : Globals} {rg : RGlobals} (hg : GlobRel g rg) (hn : GNames g) (e : Expr)
     (s : St) (ss : SpecSt) (hr : DRel s ss) (he : (nestedReturn g e s).1.errors = s.errors) :
@@ -563,12 +623,12 @@ theorem den_nestedReturn {g : Globals} {rg : RGlobals} (hg : GlobRel g rg) (hn :
     | some r =>
       dsimp only at he ⊢
       have he1 : s1.errors = s.errors := he
-      obtain ⟨r', s2, hm2, _, _, t1, r1, _⟩ := hrun he1
+      obtain ⟨r', s2, hm2, _, _, t1, r1, hh⟩ := hrun he1
       rw [hm] at hm2
       injection hm2 with hm2 hm3
       injection hm2 with hm2
       subst hm2; subst hm3
-      refine drel_setReturn (drel_push_emit (drel_trans hr t1) _ _ ?_ ?_)
+      refine drel_setReturn (drel_push_emit (drel_trans hr t1) _ _ ?_ ?_ rfl (fun q hq => hh.regs q hq))
       · simp only [abstractStep, AbsSt.emit_out]; rw [r1]
       · simp [abstractStep, AbsSt.emit_decls]
 
@@ -625,17 +685,17 @@ theorem den_fnReturn {g : Globals} {rg : RGlobals} (hg : GlobRel g rg) (hn : GNa
           by_cases hrt : resTy ≠ r.ty
           · rw [if_pos hrt] at hlen; rw [addErr_len] at hlen; omega
           · rw [if_neg hrt] at he hlen ⊢
-            obtain ⟨r', s2, hm2, _, _, t1, r1, _⟩ := hrun he
+            obtain ⟨r', s2, hm2, _, _, t1, r1, hh⟩ := hrun he
             rw [hm] at hm2
             injection hm2 with hm2 hm3
             injection hm2 with hm2
             subst hm2; subst hm3
             have h1 := drel_trans hr t1
             split
-            · refine drel_push_emit h1 _ _ ?_ ?_
+            · refine drel_push_emit h1 _ _ ?_ ?_ rfl (fun q hq => hh.regs q hq)
               · simp only [abstractStep, AbsSt.emit_out]; rw [r1]
               · simp [abstractStep, AbsSt.emit_decls]
-            · refine drel_push_emit h1 _ _ ?_ ?_
+            · refine drel_push_emit h1 _ _ ?_ ?_ rfl (fun q hq => hh.regs q hq)
               · simp only [abstractStep, AbsSt.emit_out]; rw [r1]
               · simp [abstractStep, AbsSt.emit_decls]
         · exfalso
